@@ -277,6 +277,8 @@ fn units_for(cyc: &Cycle, thorough: bool) -> Vec<Unit> {
         v.push(Unit { name: "i32_max_2_cycles", start_day: max_day - 2 * cd, n_days: 2 * cd + 1000, secs: SecSet::Edge });
         v.push(Unit { name: "all_seconds_1968_1971", start_day: cyc.day_of(1968, 1, 1), n_days: 1461, secs: SecSet::All });
         v.push(Unit { name: "all_seconds_m4_m1", start_day: cyc.day_of(-4, 1, 1), n_days: 1461, secs: SecSet::All });
+        v.push(Unit { name: "all_seconds_first_days_of_range", start_day: min_day - 1, n_days: 3, secs: SecSet::All });
+        v.push(Unit { name: "all_seconds_last_days_of_range", start_day: max_day - 1, n_days: 3, secs: SecSet::All });
     } else {
         v.push(Unit { name: "all_seconds_cycle_1970_2369", start_day: 0, n_days: cd, secs: SecSet::All });
         v.push(Unit { name: "around_0_20000_cycles_day_ends", start_day: cyc.day_of(0, 1, 1) - 10_000 * cd, n_days: 20_000 * cd, secs: SecSet::Two });
@@ -586,7 +588,7 @@ pub fn run(args: &Args) -> i32 {
     let mut units = units_for(&cyc, thorough);
     if args.digest_mode {
         // C19 digest mode: reduced deterministic workload
-        units.retain(|u| u.secs != SecSet::All || u.name == "all_seconds_1968_1971");
+        units.retain(|u| u.secs != SecSet::All || u.name == "all_seconds_1968_1971" || u.n_days <= 3);
     }
     let mut total = run_units(&cyc, c02, &units, &rec);
     total = total.merge(sweep_all_cycles(&cyc, c02, thorough, &rec));
